@@ -677,8 +677,19 @@ def rule_last_touch(ctx):
                 continue
             info = S.infos.get(fn) or lockinfo(fn)
 
-            def is_unlock(e):
-                return any(m.get("k") == "call" and m.get("fn") == UNLOCK for m in walk(e))
+            # the monitor of the gate: the lock class(es) the waiter holds at its wait
+            winfo = lockinfo(wf)
+            wcls = set()
+            for h_ in winfo.visits.get((ws.b, ws.i), []):
+                wcls |= {c_ for _, c_ in h_}
+
+            def is_unlock(e, wcls=wcls):
+                for m in walk(e):
+                    if m.get("k") == "call" and m.get("fn") == UNLOCK and m["args"]:
+                        cls = last_field(fn.expand(m["args"][0]))
+                        if not wcls or cls is None or cls in wcls:
+                            return True     # releasing another (nested) mutex does not end the gate's critical section
+                return False
             for pos, lf, txt in writes:
                 # end of the critical section that contains the write
                 inside = fn.reach((pos[0], pos[1] + 1), blocked=lambda b, i, e: is_unlock(e))
@@ -688,6 +699,8 @@ def rule_last_touch(ctx):
                     if i < len(blk.elems):
                         continue
                 for c in fn.calls(UNLOCK):
+                    if not is_unlock(c.node):
+                        continue
                     # an unlock element that stopped the walk: its predecessor position was visited
                     if (c.b, c.i) not in inside and ((c.b, c.i - 1) in inside or (c.i == 0 and any(
                             (pb, len(fn.blocks[pb].elems)) in inside for pb in fn.blocks[c.b].preds)) or (c.b, c.i) == (pos[0], pos[1] + 1)):
